@@ -145,6 +145,22 @@ def sweep(cov):
         if got is not v and got != v:
           raise Violation("deprecated_alias", "cls=%s,param=%s,not_mapped" % (name, p),
                           "%s(%s=%r): %s is %r" % (name, p, v, tgt, got))
+        # the alias is consumed at construction: a later set_params of the
+        # replacement must win, and the estimator must stay clonable
+        other = 11 if p != "convergence_threshold" else 0.375
+        with warnings.catch_warnings():
+          warnings.simplefilter("ignore")
+          est.set_params(**{tgt: other})
+          try:
+            c = clone(est)
+          except Exception as e:
+            raise Violation("deprecated_alias", "cls=%s,param=%s,clone_raises" % (name, p),
+                            "%s(%s=%r).set_params(%s=%r) cannot be cloned: %s"
+                            % (name, p, v, tgt, other, str(e)[:160]))
+          if c.get_params(deep=False).get(tgt) != other:
+            raise Violation("deprecated_alias", "cls=%s,param=%s,clone_reverts" % (name, p),
+                            "clone of %s(%s=%r).set_params(%s=%r) has %s=%r"
+                            % (name, p, v, tgt, other, tgt, c.get_params(deep=False).get(tgt)))
         cov["alias_checks"] += 1
         continue
       values = [plausible(name, p, default, r)]
@@ -311,7 +327,7 @@ def gen_plan(seed, tier):
       seed, tier, n_ops=(5, 14), dmax=5, pre_p=0.35, fresh_p=0.01 if tier == "thorough" else 0.006,
       weights=dict(query=22, refit=10, threshold=4, calibrate=2, handout=0, mutate=0,
                    restart=16, clone=14, ambient=3, eigsh=2, set_nondata=8, failfit=2,
-                   fault=0, new=14))
+                   fault=0, new=14, swap_pre=6))
 
 
 SWEEP_SEED = [None]
